@@ -87,10 +87,16 @@ class Canonicalizer:
                 simplify=True,
             )
         elif isinstance(expression, Product):
+            factors: list[Expression] = []
+            for subexpr in _flatten_product(expression):
+                factor = self.canonicalize(subexpr)
+                # a factor (e.g., a fraction over one) can turn into a product itself
+                if isinstance(factor, Product):
+                    factors.extend(factor.expressions)
+                else:
+                    factors.append(factor)
             # note: safe already sorts
-            return Product.safe(
-                self.canonicalize(subexpr) for subexpr in _flatten_product(expression)
-            )
+            return Product.safe(factors)
         elif isinstance(expression, Fraction):
             numerator = self.canonicalize(expression.numerator)
             # TODO check if there's a zero in numerator, then return zero if so
@@ -99,7 +105,14 @@ class Canonicalizer:
                 return numerator
             if numerator == denominator:
                 return One()
-            return numerator / denominator  # TODO
+            rv = numerator / denominator
+            if isinstance(rv, Fraction) and isinstance(numerator, Fraction) | isinstance(
+                denominator, Fraction
+            ):
+                # dividing by (or dividing) a fraction multiplies the parts out, so the new
+                # numerator and denominator have to be brought into canonical form again
+                return self.canonicalize(rv)
+            return rv
         elif isinstance(expression, One | Zero):
             return expression
         else:
